@@ -62,6 +62,7 @@ fn checks_for(property: &str, tier: Tier) -> Vec<Box<dyn Check>> {
         | "C08" => {
             let mut v = c08::checks(tier);
             v.push(Box::new(c08lang::Blocks::new(tier)));
+            v.push(Box::new(c08lang::NestedSlots::new()));
             v
         }
         | "C09" => {
